@@ -556,15 +556,18 @@ pub struct StopAt {
     pub cap: u64,
     pub capped: bool,
     pub since: Rc<std::cell::Cell<u64>>,
+    /// one-shot interrupt: when armed, the next poll answers "stop" (once)
+    pub armed: Rc<std::cell::Cell<bool>>,
 }
 
 impl StopAt {
     pub fn never() -> Self {
-        StopAt { polls: 0, stop_at: None, cap: poll_cap(), capped: false, since: Default::default() }
+        StopAt { polls: 0, stop_at: None, cap: poll_cap(), capped: false, since: Default::default(), armed: Default::default() }
     }
     pub fn at(k: u64) -> Self {
-        StopAt { polls: 0, stop_at: Some(k), cap: poll_cap(), capped: false, since: Default::default() }
+        StopAt { polls: 0, stop_at: Some(k), cap: poll_cap(), capped: false, since: Default::default(), armed: Default::default() }
     }
+
 }
 
 impl TerminationCondition for StopAt {
@@ -575,6 +578,10 @@ impl TerminationCondition for StopAt {
         self.since.set(since + 1);
         if since >= self.cap {
             self.capped = true;
+            return true;
+        }
+        if self.armed.get() {
+            self.armed.set(false);
             return true;
         }
         match self.stop_at {
